@@ -1,4 +1,6 @@
 import CM.Proofs.InlShapeAll
+import CM.Proofs.ParseShapesAll
+import CM.Proofs.ParseShapesExamples
 /-
 C13, inline half (30 proof files `InlShape*`; two further spec chains over the inline-phase model): every inline clause of
 `Spec.shapeAt` now has a theorem about `Rewrite`. Hard breaks, autolinks, character references and code spans: the clause itself,
@@ -22,5 +24,30 @@ theorem rewrite_shapes_partial (x : IExt) (src : Bytes) (matchRef : Bytes → Bo
 theorem autolink_shape (text : Bytes) (e : Int) (h : parseAutolink text = e) (he : 0 ≤ e) :
     ∃ n : Nat, e = (n : Int) ∧ 2 ≤ n ∧ n ≤ text.length ∧ text[0]? = some 0x3C ∧ text[n - 1]? = some 0x3E :=
   parseAutolink_shape text e h he
+
+/-! ### Whole `Parse` (15 further files `ParseShapes*`: a block-phase invariant `PQ` - every run of a paragraph holds a non-blank
+    byte, has its line ending at its end, and is not preceded by a backtick - discharges the run conditions; the one container for
+    which `CSHyp` is FALSE, the empty content run of an ATX heading such as `#⏎`, is handled by evaluating the inline phase on it) -/
+
+open CM.Proofs.PSh in
+/-- **C13 for the whole of Parse, every input**: every BLOCK node, every hard break, autolink, character reference and code span
+    of every final tree has the shape of its construct - no hypothesis but that the inline phase completed on the root. -/
+theorem parse_shapes_unconditional (x : PExt) (ix : IExt) (inp : Bytes) :
+    ∀ pr ∈ (parseDoc x ix inp).roots, ∀ t', pr.tree = .ok t' → ∀ u ∈ T.nodes t',
+      (u.label.isBlock = true ∨ u.label.kind = IK.hardBreak ∨ u.label.kind = IK.autolink ∨ u.label.kind = IK.charRef ∨
+        u.label.kind = IK.codeSpan) → shapeAt pr.root.source u = true :=
+  PSh.parse_shapes_unconditional x ix inp
+
+open CM.Proofs.PSh in
+/-- … and HTML tags, emphasis, strong, links and images have their shape as soon as their span has the minimal length. -/
+theorem parse_shapes_partial_all (x : PExt) (ix : IExt) (inp : Bytes) :
+    ∀ pr ∈ (parseDoc x ix inp).roots, ∀ t', pr.tree = .ok t' → ∀ u ∈ T.nodes t',
+      (u.label.isBlock = true → shapeAt pr.root.source u = true) ∧
+      (u.label.isBlock = false → InlineShapesPartial pr.root.source u) :=
+  PSh.parse_shapes_partial_all x ix inp
+
+open CM.Proofs.PSh in
+/-- The code-span run condition is false for the empty content run of an ATX heading (`#⏎`). -/
+theorem atx_empty_not_cshyp : ¬ CSHyp [Model.mkInline IK.unparsed 1 1] [0x23, 0x0A] 2 := PSh.atx_empty_not_cshyp
 
 end CM.Props.C13
